@@ -34,7 +34,8 @@ def oracle(root, keep, res, rs, before, after):
     dom = S.domain_of(order)
     ncols = len(dom)
     sizes = [dom[v] for v in keep]
-    total = int(np.prod(sizes))
+    import math as _m
+    total = _m.prod(int(t) for t in sizes)
     combos = list(itertools.product(*[range(s) for s in sizes])) if total <= 128 else \
         [tuple(int(rs.randint(s)) for s in sizes) for _ in range(128)]
     X = np.full((len(combos), ncols), np.nan, dtype=np.float32)
@@ -174,6 +175,45 @@ def learned_cases(ctx, n):
         yield f"learned:{cfg['learner']}", root, rs, cfg
 
 
+def wide_clt_cases(ctx):
+    """a Chow-Liu leaf over 130..200 variables: the evidence below a marginalised variable has log-probability around -100, far below
+    what single precision can hold in the linear domain. Structural marginalisation and marginal inference must still agree (and
+    agree with an independent log-domain recursion)."""
+    from harness import clt as CL
+    quick = ctx.tier == 'quick'
+    for k in range(3 if quick else 30):
+        rs = np.random.RandomState(np_seed(ctx.sub_rng('wide', k)))
+        n = int(rs.choice([130, 160, 200]))
+        clt, pred = CL.make_wide_clt(rs, n)
+        root = assign_ids(Product(children=[clt, Bernoulli(n, float(rs.uniform(0.2, 0.8)))]))
+        drop = sorted({pred.index(-1), int(rs.randint(n))} | ({int(rs.randint(n))} if k % 2 else set()))
+        keep = [v for v in range(n + 1) if v not in drop]
+        ctx.case('wide-clt-leaf', nontrivial_key=('wide', k), sample=dict(name='wide-clt-leaf', variables=n, dropped=drop))
+        ctx.count('wide-clt-leaf-circuits')
+        lp = np.asarray(clt.params, dtype=np.float64)
+        rep = dict(kind='c10-wide', pred=pred, params=lp.tolist(), keep=keep, extra_p=float(root.children[1].p))
+        try:
+            res = marginalize(root, list(keep), copy=True)
+        except Exception as ex:
+            ctx.violation(f'c10-raises:{type(ex).__name__}', f'marginalize raised {type(ex).__name__}: {ex} on a circuit with a {n}-variable Chow-Liu leaf', replay=rep)
+            return
+        X = np.full((5, n + 1), np.nan, dtype=np.float32)
+        for r in range(5):
+            for v in keep:
+                X[r, v] = rs.randint(2)
+        a = np.asarray(log_likelihood(root, X), dtype=np.float64).reshape(-1)
+        b = np.asarray(log_likelihood(res, X), dtype=np.float64).reshape(-1)
+        for r in range(5):
+            row = [None if np.isnan(t) else int(t) for t in X[r, :n]]
+            ref = CL.ref_clt_logvalue(pred, lp, row) + (0.0 if np.isnan(X[r, n]) else float(np.log(root.children[1].p if X[r, n] == 1 else 1 - root.children[1].p)))
+            tol = 2e-2 + 2e-4 * abs(ref)
+            ctx.count('wide-rows')
+            if abs(a[r] - b[r]) > tol or abs(a[r] - ref) > tol or abs(b[r] - ref) > tol:
+                ctx.violation('c10-value:wide', f'{n}-variable Chow-Liu leaf, kept all but {drop}: marginalised circuit gives {float(b[r])}, the original with the rest '
+                                                f'missing gives {float(a[r])}, the log of the sum over completions is {ref}', replay=dict(rep, row=X[r].tolist()))
+                return
+
+
 def run(ctx):
     quick = ctx.tier == 'quick'
     n = 70 if quick else 1500
@@ -203,6 +243,8 @@ def run(ctx):
         one_case(ctx, f'rand{k}' + (f' after {Hist.brief(hist_extra["steps"])}' if hist_extra else ''), root, rs, 4 if quick else 12, history=hist_extra)
         if ctx.n_new(with_input_only=True) >= 3:
             return
+    if ctx.n_new(with_input_only=True) == 0:
+        wide_clt_cases(ctx)
     for name, root, rs, cfg in learned_cases(ctx, 8 if quick else 120):
         ctx.count(name)
         one_case(ctx, name, root, rs, 3 if quick else 8, rep_extra=cfg)
@@ -223,6 +265,20 @@ def run(ctx):
 
 
 def replay(rep):
+    if rep['replay'].get('kind') == 'c10-wide':
+        from harness import clt as CL
+        r = rep['replay']
+        n = len(r['pred'])
+        clt = BinaryCLT(list(range(n)), root=r['pred'].index(-1), tree=r['pred'], params=r['params'])
+        root = assign_ids(Product(children=[clt, Bernoulli(n, r['extra_p'])]))
+        res = marginalize(root, list(r['keep']), copy=True)
+        x = np.array([[np.nan if (t is None or t != t) else t for t in r['row']]], dtype=np.float32)
+        a = float(np.asarray(log_likelihood(root, x)).reshape(-1)[0]); b = float(np.asarray(log_likelihood(res, x)).reshape(-1)[0])
+        ref = CL.ref_clt_logvalue(r['pred'], np.array(r['params']), [None if np.isnan(t) else int(t) for t in x[0, :n]]) + \
+            (0.0 if np.isnan(x[0, n]) else float(np.log(r['extra_p'] if x[0, n] == 1 else 1 - r['extra_p'])))
+        print('original with NaN', a, 'marginalised', b, 'reference', ref)
+        tol = 2e-2 + 2e-4 * abs(ref)
+        return abs(a - b) <= tol and abs(a - ref) <= tol
     if rep['replay'].get('kind') == 'demo':
         from harness.common import replay_demo
         return replay_demo(rep['replay'])
